@@ -89,7 +89,7 @@ type expObs struct {
 	Names    string     `json:"names"`
 	Spell    string     `json:"spell"`
 	Reps     int        `json:"reps"`
-	Elem     string     `json:"elem"`    // single-element entries: pointer of the expanded element
+	Elem     string     `json:"elem"` // single-element entries: pointer of the expanded element
 	Cache    string     `json:"cache"`
 	Cached   []AURL     `json:"cached"`   // documents known to be in the supplied cache before the call
 	SameFull bool       `json:"samefull"` // SkipThenFull: bytes equal to the direct full expansion
